@@ -13,6 +13,12 @@ enum { M_ADD_M = 0, M_SUB_M, M_ADD_S, M_SUB_S, M_MUL_S, M_DIV_S, M_MOD_S, M_IADD
 #ifndef EB
 #define EB 2
 #endif
+#ifndef MB
+#define MB 127
+#endif
+#ifndef GROUP
+#define GROUP 0
+#endif
 #define U(p) ((uint32_t*)(p))
 static int fits32(int64_t v) { return v >= -2147483648LL && v <= 2147483647LL; }
 static void in_mat_full(int32_t* m) { for (int i = 0; i < 16; i++) m[i] = in_i32(); }
@@ -28,10 +34,10 @@ void harness(void) {
   for (int i = 0; i < 4; i++) v[i] = (int32_t)in_irange(-16383, 16383);
   ASSERT(w_m4_mulv(U(A), U(v), U(o1)) == 0, "M*v does not throw");
   for (int r = 0; r < 4; r++) {
-    int64_t s = 0;
-    for (int c = 0; c < 4; c++) s += (int64_t)A[4 * c + r] * v[c];
+    int32_t s = 0; /* exact: |terms| < 2^28 */
+    for (int c = 0; c < 4; c++) s += A[4 * c + r] * v[c];
     OBS(o1[r]);
-    ASSERT((int64_t)o1[r] == s, "(M v)_r == sum_c m[c][r] v_c");
+    ASSERT(o1[r] == s, "(M v)_r == sum_c m[c][r] v_c");
   }
   /* I*v == v, full width */
   for (int i = 0; i < 4; i++) v[i] = in_i32();
@@ -57,12 +63,12 @@ void harness(void) {
   in_mat_small(A, EB); in_mat_small(B, EB);
   uint32_t ip = in_bool();
   ASSERT(w_m4_mulm(U(A), U(B), ip, U(R)) == 0, "A*B does not throw");
-  for (int c = 0; c < 4; c++) for (int r = 0; r < 4; r++) {
-    int64_t s = 0;
-    for (int z = 0; z < 4; z++) s += (int64_t)A[4 * z + r] * B[4 * c + z];
-    OBS(R[4 * c + r]);
-    ASSERT((int64_t)R[4 * c + r] == s, "(A B)[c][r] == sum_z A[z][r] B[c][z]");
-  }
+  /* one symbolic element (c, r) is compared (every element, one at a time) */
+  uint64_t c = in_range(0, 3), r = in_range(0, 3);
+  int32_t s = 0;
+  for (int z = 0; z < 4; z++) s += A[4 * z + r] * B[4 * c + z];
+  OBS(R[4 * c + r]);
+  ASSERT(R[4 * c + r] == s, "(A B)[c][r] == sum_z A[z][r] B[c][z]");
 #elif MODE == 3
   /* (A B) v == A (B v); entries in [-EB, EB] */
   in_mat_small(A, EB); in_mat_small(B, EB);
@@ -70,28 +76,37 @@ void harness(void) {
   ASSERT(w_m4_assoc(U(A), U(B), U(v), U(o1), U(o2)) == 0, "products do not throw");
   for (int i = 0; i < 4; i++) { OBS(o1[i]); ASSERT(o1[i] == o2[i], "(A B) v == A (B v)"); }
 #else
-  /* elementwise operators with a matrix or a scalar: one symbolic element checked, exact result must fit int32 */
+  /* elementwise operators with a matrix or a scalar: one symbolic element checked (every element, one at a time).
+   * GROUP 0: + - (every input whose exact result fits int32); GROUP 1/2/3: * / % scalar with operands in [-MB, MB]. */
   in_mat_full(A); in_mat_full(B);
   int32_t s = in_i32();
-  uint32_t op = (uint32_t)in_range(0, M_COUNT - 1);
-  if (op == M_DIV_S || op == M_MOD_S || op == M_IDIV_S || op == M_IMOD_S) ASSUME(s != 0);
-  int64_t ref[16];
-  for (int i = 0; i < 16; i++) {
-    int64_t x = A[i], y = B[i];
-    switch (op) {
-      case M_ADD_M: case M_IADD_M: ref[i] = x + y; break;
-      case M_SUB_M: case M_ISUB_M: ref[i] = x - y; break;
-      case M_ADD_S: case M_IADD_S: ref[i] = x + s; break;
-      case M_SUB_S: case M_ISUB_S: ref[i] = x - s; break;
-      case M_MUL_S: case M_IMUL_S: ref[i] = x * (int64_t)s; break;
-      case M_DIV_S: case M_IDIV_S: ref[i] = x / (int64_t)s; break;
-      default: ref[i] = x % (int64_t)s; ASSUME(!(x == -2147483648LL && s == -1)); break;
-    }
-    ASSUME(fits32(ref[i]));
-  }
-  ASSERT(w_m4_op(op, U(A), U(B), (uint32_t)s, U(R)) == 0, "matrix operator does not throw");
+  uint32_t op;
   uint64_t k = in_range(0, 15);
+  int32_t ref;
+#if GROUP == 0
+  static const uint8_t ops[] = {M_ADD_M, M_SUB_M, M_ADD_S, M_SUB_S, M_IADD_M, M_ISUB_M, M_IADD_S, M_ISUB_S};
+  op = ops[in_range(0, sizeof(ops) - 1)];
+  for (int i = 0; i < 16; i++) {
+    int64_t x = A[i], y = B[i], r;
+    switch (op) {
+      case M_ADD_M: case M_IADD_M: r = x + y; break;
+      case M_SUB_M: case M_ISUB_M: r = x - y; break;
+      case M_ADD_S: case M_IADD_S: r = x + s; break;
+      default: r = x - s; break;
+    }
+    ASSUME(fits32(r));
+    if (i == (int)k) ref = (int32_t)r;
+  }
+#else
+  op = (GROUP == 1 ? M_MUL_S : GROUP == 2 ? M_DIV_S : M_MOD_S);
+  if (in_bool()) op += M_IMUL_S - M_MUL_S;
+  ASSUME(s >= -MB && s <= MB);
+  if (GROUP != 1) ASSUME(s != 0);
+  for (int i = 0; i < 16; i++) ASSUME(A[i] >= -MB && A[i] <= MB);
+  ref = (GROUP == 1) ? A[k] * s : (GROUP == 2) ? A[k] / s : A[k] % s;
+#endif
+  ASSERT(w_m4_op(op, U(A), U(B), (uint32_t)s, U(R)) == 0, "matrix operator does not throw");
   OBS(R[k]);
-  ASSERT((int64_t)R[k] == ref[k], "matrix operator == elementwise definition");
+  ASSERT(R[k] == ref, "matrix operator == elementwise definition");
 #endif
 }
